@@ -859,7 +859,9 @@ class Emit:
         if k == "cast": return f"(Rs.cast {self.ex(e[1])} : {self.ty(e[2])})"
         if k == "bin":
             op = e[1]
-            if op in ("&&", "||") and (self.has_try(e[3]) or not self.pure_expr(e[3])):
+            if op in ("&&", "||") and (self.has_try(e[3]) or not self.pure_expr(e[3]) or (self.effects and "(← " in self.ex(e[3]))):
+                # (the right operand performs an effect — possibly inside a macro such as `matches!(probe().await, …)`: it must
+                #  run only when the left operand does not decide, as in Rust)
                 a = self.ex(e[2]); b = self.ex(e[3])
                 if op == "&&": return f"(← (do if {a} then (do pure ({b})) else pure false))"
                 return f"(← (do if {a} then pure true else (do pure ({b}))))"
@@ -1494,7 +1496,9 @@ class Emit:
         muts = [n for n, t, *m in it["params"] if m]
         e = it["expr"]
         L = [f"  let mut {n} := {n}" for n in muts]
-        if e[0] in ("if", "iflet", "match", "block") and not self.pure_expr(e):
+        if it.get("unit_body"):
+            L += self.seq(e if e[0] == "block" else ("block", [], e), "  ", "unit"); L.append("  let __res := ()")
+        elif e[0] in ("if", "iflet", "match", "block") and not self.pure_expr(e):
             L.append("  let __res ←"); L += self.branching_or_block(e, "    ", "val")
         else:
             saved = self.pre; self.pre = []
@@ -1580,12 +1584,19 @@ def find_fragment_in_tokens(it, sel):
                 if not sub.eat("="): continue
                 found.append(sub.expr())
             except Unsupported: continue
+        if kind == "forbody" and t[:2] == ("id", "for") and toks[i + 1][:2] == ("id", name.split("@")[0]) and toks[i + 2][:2] == ("id", "in"):
+            sub = P(toks, it["fname"]); sub.i = i + 3
+            try:
+                itx = sub.expr(nostruct=True)
+                if "@" in name and not mentions(itx, name.split("@")[1]): continue
+                found.append(sub.block())
+            except Unsupported: continue
         if kind in ("if", "iflast") and t[:2] == ("id", "if") and toks[i + 1][:2] != ("id", "let"):
             sub = P(toks, it["fname"]); sub.i = i + 1
             try: c = sub.expr(nostruct=True)
             except Unsupported: continue
             if mentions(c, name): found.append(c)
-    if kind == "let": return found[0] if len(found) == 1 else None
+    if kind == "let" or (kind == "forbody" and "@" not in name): return found[0] if len(found) == 1 else None
     if kind == "iflast": return found[-1] if found else None
     return found[0] if found else None
 
@@ -1598,11 +1609,13 @@ def find_fragment(body, sel):
         if isinstance(e, tuple):
             if kind == "let" and e[:1] == ("let",) and len(e) == 6 and e[1] == ("bind", name) and e[4] is not None: found.append(e[4])
             if kind in ("if", "iflast") and e[:1] == ("if",) and len(e) == 4 and mentions(e[1], name): found.append(e[1])
+            if kind == "forbody" and e[:1] == ("for",) and len(e) == 4 and e[1] == ("bind", name.split("@")[0]) \
+               and ("@" not in name or mentions(e[2], name.split("@")[1])): found.append(e[3])
             for x in e: walk(x)
         elif isinstance(e, list):
             for x in e: walk(x)
     walk(body)
-    if kind == "let": return found[0] if len(found) == 1 else None
+    if kind == "let" or (kind == "forbody" and "@" not in name): return found[0] if len(found) == 1 else None
     if kind == "iflast": return found[-1] if found else None
     return found[0] if found else None
 
@@ -1641,7 +1654,7 @@ def translate_unit(unit, repo):
             if key not in its: raise Unsupported(f"{f}: item `{key}` not found")
             e = find_fragment_in_tokens(its[key], sel) if its[key]["kind"] == "error" else find_fragment(its[key]["body"], sel)
             if e is None: raise Unsupported(f"{f}: `{key}`: fragment `{sel}` not found (or not unique)")
-            decls.append(("fragfx", key + " @ " + sel, ln, {"expr": e, "params": params, "rty": rty, "owner": its[key]["owner"]}, f))
+            decls.append(("fragfx", key + " @ " + sel, ln, {"expr": e, "params": params, "rty": rty, "owner": its[key]["owner"], "unit_body": sel.startswith("forbody:")}, f))
             continue
         if ent[0] == "frag":
             # ("frag", file, fn, selector, lean name, [(param, lean type)], lean result type)
